@@ -39,6 +39,8 @@ Decode(b) ==
                ELSE [ok |-> FALSE, pt |-> C!E!Inf]
        ELSE [ok |-> FALSE, pt |-> C!E!Inf]
 
+RegsOK(s, regs) == \A x \in DOMAIN s : x \in DOMAIN regs /\ Represents(regs[x], s[x])
+
 FieldExpect(ev) ==
   LET m == Md(ev)
       a == ev.a
@@ -83,6 +85,24 @@ Expect(s, ev) ==
          LET exp == IF ev.bits >= 1 /\ ev.bits <= Len(ev.table) THEN ev.table[ev.bits]
                     ELSE IF ev.fbcond = 0 THEN ev.fallback ELSE B32(<<>>)
          IN [st |-> s, ok |-> ev.panic = "" /\ ev.out = exp, why |-> "multiselect: selected entry"]
+    [] ev.op = "ptm.new" ->
+         \* point register machine: abstract state = register name -> the group element it holds
+         LET s2 == [x \in (DOMAIN s) \cup {ev.r} |-> IF x = ev.r THEN Affine(ev.p1) ELSE s[x]]
+         IN [st |-> s2, ok |-> ev.panic = "" /\ RegsOK(s2, ev.regs), why |-> "point registers: new"]
+    [] ev.op = "ptm.op" ->
+         LET a == s[ev.a]
+             v == CASE ev.fn = "add" -> C!E!AddPts(a, s[ev.b])
+                    [] ev.fn = "double" -> C!E!AddPts(a, a)
+                    [] ev.fn = "negate" -> C!E!Neg(a)
+                    [] ev.fn = "set" -> a
+                    [] ev.fn = "select" -> IF ev.cond = 1 THEN a ELSE s[ev.b]
+             s2 == [x \in (DOMAIN s) \cup {ev.dst} |-> IF x = ev.dst THEN v ELSE s[x]]
+         IN \* EVERY register must still represent its value: an operation that leaves two points
+            \* sharing storage, or modifies an operand, is exposed here or at a later step
+            [st |-> s2, ok |-> ev.panic = "" /\ RegsOK(s2, ev.regs),
+             why |-> IF ev.panic # "" THEN "point registers: panic"
+                     ELSE IF ~Represents(ev.regs[ev.dst], v) THEN "point registers: result of " \o ev.fn
+                     ELSE "point registers: another register changed (shared storage or modified operand) after " \o ev.fn]
     [] ev.op = "pt.add" ->
          LET p2 == IF ev.alias \in {"all", "p1=p2"} THEN ev.p1 ELSE ev.p2
              sum == C!E!AddPts(Affine(ev.p1), Affine(p2))
